@@ -763,6 +763,12 @@ func C06IPFamilies(link Link, primary byte) *C06Families {
 
 	add := func(name string, b []byte) { fam.Small = append(fam.Small, c06f(name, b)) }
 
+	// special source addresses (each frame meets a fresh parser: whatever a parser remembers of the last
+	// source is in its initial state)
+	for _, src := range [][4]byte{{0, 0, 0, 0}, {255, 255, 255, 255}, {0, 0, 0, 1}, {1, 0, 0, 0}, {127, 0, 0, 1}, {224, 0, 0, 1}} {
+		add(fmt.Sprintf("%sip4+%s#A(src=%d.%d.%d.%d)", pre, pn, src[0], src[1], src[2], src[3]),
+			wrap(BuildIPv4(DecIPHdr{ID: 0x1234, FlagsFrag: 0x4000, TTL: 57, Proto: primary, Src: src, Dst: c06Dst}, trA(src, c06Dst))))
+	}
 	// (a) truncations
 	for _, s := range fam.Seeds {
 		for n := 0; n < len(s.B); n++ {
